@@ -477,7 +477,7 @@ pub fn execute(sc: &Scenario, env: &Env) -> (Outcome, RunStats) {
                 v.detail
             );
             stats.bump(&format!("violating_crash_points:{}", v.class), 1);
-            if known.contains(&v.signature) {
+            if known.iter().any(|k| crate::driver::sig_matches(k, &v.signature)) {
                 if first_known.is_none() {
                     first_known = Some(v);
                 }
